@@ -21,6 +21,10 @@ type WatchdogConfig struct {
 	WarnRatio    float64
 	WarnSegments int64
 	RaftPointers func() map[uint64]manifest.RaftLogPointer
+	// LSMCheckpoint, when set, returns the newest WAL segment whose LSM entries are all
+	// contained in installed tables. Segments above it still back unflushed memtables
+	// and are never auto-removed.
+	LSMCheckpoint func() uint32
 }
 
 // WatchdogSnapshot captures WAL watchdog state for reporting.
@@ -37,15 +41,16 @@ type WatchdogSnapshot struct {
 
 // Watchdog periodically inspects WAL backlog and can remove stale segments.
 type Watchdog struct {
-	manager      *Manager
-	interval     time.Duration
-	minRemovable int
-	maxBatch     int
-	warnRatio    float64
-	warnSegments int64
-	autoEnabled  bool
-	raftPointers func() map[uint64]manifest.RaftLogPointer
-	closer       *utils.Closer
+	manager       *Manager
+	interval      time.Duration
+	minRemovable  int
+	maxBatch      int
+	warnRatio     float64
+	warnSegments  int64
+	autoEnabled   bool
+	raftPointers  func() map[uint64]manifest.RaftLogPointer
+	lsmCheckpoint func() uint32
+	closer        *utils.Closer
 
 	autoRuns        atomic.Uint64
 	segmentsRemoved atomic.Uint64
@@ -75,15 +80,16 @@ func NewWatchdog(cfg WatchdogConfig) *Watchdog {
 		maxBatch = 4
 	}
 	w := &Watchdog{
-		manager:      cfg.Manager,
-		interval:     interval,
-		minRemovable: minRemovable,
-		maxBatch:     maxBatch,
-		warnRatio:    cfg.WarnRatio,
-		warnSegments: cfg.WarnSegments,
-		autoEnabled:  cfg.MinRemovable > 0 && cfg.MaxBatch > 0,
-		raftPointers: cfg.RaftPointers,
-		closer:       utils.NewCloser(),
+		manager:       cfg.Manager,
+		interval:      interval,
+		minRemovable:  minRemovable,
+		maxBatch:      maxBatch,
+		warnRatio:     cfg.WarnRatio,
+		warnSegments:  cfg.WarnSegments,
+		autoEnabled:   cfg.MinRemovable > 0 && cfg.MaxBatch > 0,
+		raftPointers:  cfg.RaftPointers,
+		lsmCheckpoint: cfg.LSMCheckpoint,
+		closer:        utils.NewCloser(),
 	}
 	w.warnReason.Store("")
 	return w
@@ -166,6 +172,17 @@ func (w *Watchdog) observe() {
 		ptrs = w.raftPointers()
 	}
 	analysis := metrics.AnalyzeWALBacklog(wmetrics, segmentMetrics, ptrs)
+	if w.lsmCheckpoint != nil {
+		// A segment is only removable once the memtable it backs has been flushed.
+		checkpoint := w.lsmCheckpoint()
+		kept := analysis.RemovableSegments[:0]
+		for _, id := range analysis.RemovableSegments {
+			if id <= checkpoint {
+				kept = append(kept, id)
+			}
+		}
+		analysis.RemovableSegments = kept
+	}
 
 	w.removableCount.Store(int64(len(analysis.RemovableSegments)))
 	w.lastRatioBits.Store(math.Float64bits(analysis.TypedRecordRatio))
